@@ -43,6 +43,7 @@ type CrashCfg struct {
 	PostWork            bool        `json:"post_work"`
 	BigTxn              bool        `json:"big_txn"`
 	Pressure            bool        `json:"pressure"`
+	Churn               bool        `json:"churn,omitempty"` // Pressure variant: wide range deletes empty whole skip-list nodes, their pages go to the reusable id list and come back through NewPage while the pool is full of dirty pages
 	CleanRestartInSetup bool        `json:"clean_restart_in_setup"`
 	BulkLoser           int         `json:"bulk_loser,omitempty"`  // a transaction that inserts this many wide rows and never commits, followed by a committed bulk insert of another one (minimum pool)
 	HotUpdates          int         `json:"hot_updates,omitempty"` // BigTxn variant: this many in-place updates of one or two rows in one transaction
@@ -118,7 +119,7 @@ func genCrashCfg(r *rng, tier string, prop string) CrashCfg {
 	c.PostWork = r.Chance(0.5)
 	c.MaxImages = 400
 	c.CleanRestartInSetup = r.Chance(0.25)
-	if r.Chance(0.2) {
+	if r.Chance(0.2) || os.Getenv("VERIF_FORCE_CHURN") != "" {
 		// eviction pressure: one table whose heap is larger than the frames that are not pinned for
 		// good, minimum pool, long transactions of scan-path statements: dirty pages of the open
 		// transaction are evicted in the middle of statements (steal)
@@ -133,6 +134,10 @@ func genCrashCfg(r *rng, tier string, prop string) CrashCfg {
 		c.NOps = 12 + r.Intn(20)
 		c.CleanRestartInSetup = false
 		c.MaxImages = 80
+		c.Churn = r.Chance(0.5) || os.Getenv("VERIF_FORCE_CHURN") != ""
+		if c.Churn {
+			c.NOps = 70 + r.Intn(50) // refill: enough inserts for the indexes to split nodes again
+		}
 	}
 	if (!c.Pressure && r.Chance(map[string]float64{"thorough": 0.04}[tier]+0.015+map[string]float64{"C08": 0.06}[prop])) || os.Getenv("VERIF_FORCE_BIGTXN") != "" {
 		c.Pressure = false
@@ -359,7 +364,7 @@ func genStmt(r *rng, c *CrashCfg, e *Exec, mt *MTxn, kg *keyGen) *Stmt {
 	}
 	ks := visibleKeys(e, mt, ts.Name)
 	kind := r.Intn(10)
-	if len(ks) == 0 {
+	if len(ks) == 0 || (c.Churn && r.Chance(0.6)) {
 		kind = 0
 	}
 	keyPred := func() *Pred {
@@ -403,6 +408,13 @@ func genStmt(r *rng, c *CrashCfg, e *Exec, mt *MTxn, kg *keyGen) *Stmt {
 		}
 		return st
 	case kind <= 8: // delete
+		if c.Churn && r.Chance(0.6) {
+			// a contiguous run of keys: every entry of several nodes of the wide varchar index (and often of
+			// the integer ones) goes away, the nodes are deallocated, and the inserts and growing updates that
+			// follow split nodes again: NewPage takes reused ids while it evicts dirty victims
+			k := ks[r.Intn(len(ks))]
+			return &Stmt{Kind: "delete", Table: ts.Name, Where: &Pred{Logic: "AND", L: &Pred{Col: "k", Op: ">=", Val: k}, R: &Pred{Col: "k", Op: "<=", Val: k + int32(15+r.Intn(45))}}}
+		}
 		return &Stmt{Kind: "delete", Table: ts.Name, Where: keyPred()}
 	default: // select
 		return &Stmt{Kind: "select", Table: ts.Name, Cols: colNames(ts), Where: keyPred()}
@@ -668,8 +680,20 @@ func (cr *CrashRun) execute(ops []Op, gen *rng) {
 			return
 		}
 	}
+	if cfg.Churn && e.Panic == nil {
+		// the ids of skip-list nodes emptied by a delete become reusable only at the next start (redo
+		// rebuilds the reusable id list from the DEALLOCATE records): empty many nodes now, restart cleanly,
+		// and the session under test allocates from a non-empty reusable list while its pool is full
+		lo, hi := int32(3), int32(cfg.InitRows) // (all but two rows: every index loses all its nodes but the ones that hold the survivors)
+		e.Run(-1, Op{Kind: "auto", Stmt: &Stmt{Kind: "delete", Table: cfg.Tables[0].Name, Where: &Pred{Logic: "AND", L: &Pred{Col: "k", Op: ">=", Val: lo}, R: &Pred{Col: "k", Op: "<=", Val: hi}}}})
+		if e.Panic != nil {
+			cr.Infeasible = "setup delete: " + e.Panic.String()
+			s.Crash()
+			return
+		}
+	}
 	e.Outcomes = nil
-	if cfg.CleanRestartInSetup {
+	if cfg.CleanRestartInSetup || cfg.Churn {
 		if pi := s.Shutdown(); pi != nil {
 			cr.Infeasible = "setup shutdown: " + pi.String()
 			return
